@@ -24,7 +24,7 @@ namespace vs { namespace thr {
 struct SimThread
 {
    int id; sem_t sem; int st; const void * waitObj; const volatile uint32_t * pending; uint64_t deadline; bool timedOut; const void * threadObj;
-   bool inTimed; uint64_t apiDeadline; const char * timedTag; int nfds; fd_set rs, ws; bool hasR, hasW; int prio; pid_t tid;
+   bool inTimed; uint64_t apiDeadline; const char * timedTag; const std::function<bool()> * pred; int nfds; fd_set rs, ws; bool hasR, hasW; int prio; pid_t tid;
 };
 static std::vector<SimThread *> g_threads; static std::mutex g_reg; static sem_t g_regSem; static bool g_regSemInit = false;
 static thread_local SimThread * t_self = NULL;
@@ -57,7 +57,7 @@ void SetInvariant(InvariantFn fn) {g_invariant = fn;}
 void ReportAndExit(const std::string & cls, const std::string & detail)
 {
    std::string d = detail + " [decisions so far: " + U(g_stats.steps) + ", threads:";
-   for (auto t : g_threads) {static const char * sn[] = {"runnable", "blocked-on-mutex", "blocked-on-cond", "blocked-on-join", "blocked-on-poll", "sleeping", "finished", "waiting-for-all"}; d += " t" + I(t->id) + "=" + sn[t->st];}
+   for (auto t : g_threads) {static const char * sn[] = {"runnable", "blocked-on-mutex", "blocked-on-cond", "blocked-on-join", "blocked-on-poll", "sleeping", "finished", "waiting-for-all", "waiting-for-harness-condition"}; d += " t" + I(t->id) + "=" + sn[t->st];}
    d += "]";
    ExitWithViolation(cls, d, g_hash.h);
 }
@@ -78,8 +78,9 @@ static bool Enabled(SimThread * t, bool * byTimeout)
       case ST_BL_MUTEX: {auto it = g_mutexes.find(t->waitObj); return (it == g_mutexes.end())||(it->second.count == 0)||(it->second.owner == t->id);}
       case ST_BL_COND:  if (*t->pending > 0) return true; break;
       case ST_BL_POLL:  if (PollReady(t)) return true; break;
-      case ST_BL_JOIN:  {for (auto x : g_threads) if (x->threadObj == t->waitObj) return (x->st == ST_FINISHED); return true;}
+      case ST_BL_JOIN:  {for (size_t i=g_threads.size(); i>0; i--) if (g_threads[i-1]->threadObj == t->waitObj) return (g_threads[i-1]->st == ST_FINISHED); return true;}   // the LATEST incarnation of that Thread object (it may have been restarted)
       case ST_BL_SLEEP: break;
+      case ST_BL_PRED:  return (t->pred == NULL)||((*t->pred)());
       case ST_BL_ALL:   {for (auto x : g_threads) if ((x != t)&&(x->st != ST_FINISHED)) return false; return true;}
       default: return false;
    }
@@ -158,7 +159,7 @@ static void Schedule(const char * hook)
    if (next == NULL)
    {
       std::string d = "no thread can run and no timed wait is pending:";
-      for (auto t : g_threads) {char b[96]; static const char * sn[] = {"runnable", "mutex", "cond", "join", "poll", "sleep", "finished", "all-others-finished"}; snprintf(b, sizeof(b), " t%d blocked-on(%s)", t->id, sn[t->st]); if (t->st != ST_FINISHED) d += b;}
+      for (auto t : g_threads) {char b[96]; static const char * sn[] = {"runnable", "mutex", "cond", "join", "poll", "sleep", "finished", "all-others-finished", "harness-condition"}; snprintf(b, sizeof(b), " t%d blocked-on(%s)", t->id, sn[t->st]); if (t->st != ST_FINISHED) d += b;}
       ReportAndExit("deadlock", d);
    }
    if (nextByTimeout) {next->timedOut = true; g_stats.timeoutsFired++;}
@@ -225,7 +226,7 @@ static void HYield(int kind, const void *)
 static void RegisterSelf(const void * threadObj)
 {
    SimThread * t = new SimThread(); sem_init(&t->sem, 0, 0); t->st = ST_RUNNABLE; t->waitObj = NULL; t->pending = NULL; t->threadObj = threadObj; t->deadline = NO_DEADLINE; t->timedOut = false;
-   t->inTimed = false; t->apiDeadline = 0; t->timedTag = NULL; t->nfds = 0; t->hasR = t->hasW = false; t->tid = (pid_t) syscall(SYS_gettid);
+   t->inTimed = false; t->apiDeadline = 0; t->timedTag = NULL; t->pred = NULL; t->nfds = 0; t->hasR = t->hasW = false; t->tid = (pid_t) syscall(SYS_gettid);
    {std::lock_guard<std::mutex> g(g_reg); t->id = (int) g_threads.size(); t->prio = (int) g_userRng.below(1000); g_threads.push_back(t); if (g_threads.size() > g_stats.maxThreads) g_stats.maxThreads = g_threads.size();}
    t_self = t;
 }
@@ -256,6 +257,13 @@ void Spawn(const std::function<void()> & fn)
    th.detach();
 }
 void Yield() {if (t_self) Schedule("user");}
+void WaitUntil(const std::function<bool()> & pred)
+{
+   SimThread * me = t_self; if (!me) return;
+   Schedule("wait-until");
+   while(!pred()) {me->st = ST_BL_PRED; me->pred = &pred; Schedule("wait-until-blocked");}
+   me->pred = NULL;
+}
 void WaitForAll()
 {
    SimThread * me = t_self; if (!me) return;
